@@ -84,7 +84,9 @@ class StandardGeometry(BaseGeometry):
         t = np.where(np.abs(z1) <= np.abs(z2), t1, t2)
 
         # handle case when a = 0
-        t[a == 0] = -c[a == 0] / b[a == 0]
+        t_linear = -c[a == 0] / b[a == 0]
+        t_linear[t_linear < 0] = np.inf  # intersection "behind" ray
+        t[a == 0] = t_linear
 
         return t
 
